@@ -234,6 +234,42 @@ def rpcClose : Bytes := [60,47,114,112,99,62]
 def rpcBody (id : Nat) (inner : Bytes) : Bytes :=
   rpcOpenPrefix ++ (decDigits id ++ 34 :: GTc :: (inner ++ rpcClose))
 
+/-! ### how a caller's XML fragment is wrapped (elements.go, editconfig.go)
+
+`filterT`, `editConfig` and `message` carry the caller's string in a field tagged `,innerxml`:
+`encoding/xml` writes it between the element's tags as it is. The element texts below are the
+byte-level model of that (tied by correspondence); that the code hands the caller's string to the
+field untouched is a regenerated source fact (`Generated/C03Embedding.lean`). -/
+
+/-- `<filter type="subtree">` -/
+def subtreeOpen : Bytes :=
+  [60,102,105,108,116,101,114,32,116,121,112,101,61,34,115,117,98,116,114,101,101,34,62]
+
+/-- `</filter>` -/
+def filterClose : Bytes := [60,47,102,105,108,116,101,114,62]
+
+/-- `buildFilterElem(filter, "subtree")`, marshalled -/
+def subtreeFilterElem (filter : Bytes) : Bytes := subtreeOpen ++ filter ++ filterClose
+
+/-- `<edit-config><target><` name `></` name `></target>` -/
+def editConfigOpen (target : Bytes) : Bytes :=
+  [60,101,100,105,116,45,99,111,110,102,105,103,62,60,116,97,114,103,101,116,62,60] ++ target ++
+    [62,60,47] ++ target ++ [62,60,47,116,97,114,103,101,116,62]
+
+/-- `</edit-config>` -/
+def editConfigClose : Bytes := [60,47,101,100,105,116,45,99,111,110,102,105,103,62]
+
+/-- `buildEditConfigElem(target, config)`, marshalled -/
+def editConfigElem (target config : Bytes) : Bytes :=
+  editConfigOpen target ++ config ++ editConfigClose
+
+/-- specification side: the children of an element whose opening and closing tag texts are known -/
+def childrenOf (openTag closeTag elem : Bytes) : Option Bytes :=
+  if hasPrefix elem openTag && hasPrefix elem.reverse closeTag.reverse
+      && openTag.length + closeTag.length ≤ elem.length then
+    some ((elem.drop openTag.length).take (elem.length - openTag.length - closeTag.length))
+  else none
+
 /-- `buildPayload` uses `d.messageID` and increments it -/
 def sessionBodies : Nat → List Bytes → List Bytes
   | _, [] => []
